@@ -1,4 +1,5 @@
 import BFL.Proofs.AnyBoxSpec
+import BFL.Proofs.AnyBoxThrow
 /-
 C20 — the type-erased data container (`bfl::any::any`, `bfl::Data`) is type-safe, value-semantic and
 leak-free.
@@ -538,5 +539,161 @@ example : freeN 3 (run 3 init [.ctorVal 0 .rref p7]) 1 = true ∧ liveN (run 3 i
           held (run 3 init [.ctorVal 0 .rref p7]) (.named 0) = some p7 := by decide
 example : liveN (run 3 init (demo1.take 3)) 0 = true ∧ liveN (run 3 init (demo1.take 3)) 1 = true ∧
           held (run 3 init (demo1.take 3)) (.named 1) ≠ none := by decide
+
+/-! ### Exceptions thrown by the copy constructor of a held type -/
+
+/-- Destroying all containers of any state that satisfies the invariant empties the heap and pairs
+    every allocation with exactly one free. -/
+theorem no_leak_of_inv (n : Nat) (s0 : St) (h0 : Inv n s0) :
+    let s := destroyAll n s0
+    (∀ i, s.heap i = none) ∧ (∀ o, isLive s o = false) ∧ liveCells s = [] ∧
+    (∀ i, s.log.count (.alloc i) = (if i < s.next then 1 else 0)) ∧
+    (∀ i, s.log.count (.free i) = s.log.count (.alloc i)) := by
+  intro s
+  have hinv : Inv n s := inv_run _ h0
+  have hdead : ∀ o, isLive s o = false := by
+    intro o
+    show isLive (run n s0 ((List.range n).map Op.destroy)) o = false
+    rw [dead_after_destroys]
+    split
+    · rfl
+    · next hne =>
+      cases o with
+      | tmp => exact h0.tmpDead
+      | named k =>
+        by_cases hk : k < n
+        · exact absurd ⟨k, List.mem_range.2 hk, rfl⟩ hne
+        · exact h0.bound k (Nat.le_of_not_lt hk)
+  have hheap : ∀ i, s.heap i = none := by
+    intro i
+    by_cases hi : s.heap i = none
+    · exact hi
+    · obtain ⟨a, ha⟩ := hinv.own.owned i hi
+      rw [content_of_not_live (hdead a)] at ha
+      exact absurd ha (by simp)
+  refine ⟨hheap, hdead, ?_, hinv.own.allocOnce, ?_⟩
+  · simp [liveCells, hheap]
+  · intro i
+    rw [hinv.own.freeOnce i, hinv.own.allocOnce i]
+    simp [hheap i]
+
+/-- A throwing operation preserves the invariant (no aliasing, nothing dangling, nothing orphaned: the
+    storage obtained for the holder whose constructor threw is released). -/
+theorem throw_preserves_inv (n : Nat) (s : St) (op : Op) (h : Inv n s) : Inv n (stepThrow n s op).1 :=
+  inv_stepThrow op h
+
+/-- The invariant holds after every history in which any subset of the operations is run with the
+    throwing probe armed. -/
+theorem own_of_xops (n : Nat) (xs : List (Op × Bool)) : Inv n (runX n init xs) := inv_runX xs (inv_init n)
+
+/-- Strong guarantee.  When the copy constructor of the held object throws — in copy construction,
+    value construction from an lvalue, any copy-and-swap assignment (from a container or a value, into an
+    empty or a holding target, self-assignment included), or a copying value cast — the exception leaves
+    the call and *nothing* a client can observe has changed: every container is alive / destroyed as
+    before and holds what it held (in particular the target of an assignment keeps its old value, and a
+    container under construction does not come to life); the heap is unchanged. -/
+theorem throw_strong_guarantee (n : Nat) (s : St) (op : Op) (v : Val) (hc : copied n s op = some v) :
+    (stepThrow n s op).2 = .threw ∧ absPool (stepThrow n s op).1 = absPool s ∧
+    (∀ o, held (stepThrow n s op).1 o = held s o ∧ isLive (stepThrow n s op).1 o = isLive s o) ∧
+    (stepThrow n s op).1.heap = s.heap := by
+  obtain ⟨h1, h2⟩ := stepThrow_of_copied hc
+  refine ⟨h1, ?_, ?_, ?_⟩ <;> rcases h2 with e | e <;> rw [e] <;> first | rfl | (intro o; exact ⟨rfl, rfl⟩)
+
+/-- Nothing throws in operations that copy no held object (moves, swap, reset, destruction, pointer and
+    reference casts, the moving cast, mutation through casts, rejected operations). -/
+theorem throw_only_when_copying (n : Nat) (s : St) (op : Op) (hc : copied n s op = none) :
+    stepThrow n s op = step n s op := stepThrow_of_not_copied hc
+
+/-- The storage obtained for a holder whose member constructor threw is released exactly once and is
+    never seen by any container. -/
+theorem throw_storage_released (n : Nat) (xs : List (Op × Bool)) :
+    let s := runX n init xs
+    (failedNew s).heap s.next = none ∧ (failedNew s).log.count (.alloc s.next) = 1 ∧
+    (failedNew s).log.count (.free s.next) = 1 ∧ ∀ o, content (failedNew s) o ≠ some s.next := by
+  intro s
+  have h : Own s := (own_of_xops n xs).own
+  have h' := own_failedNew h
+  have hn : (failedNew s).heap s.next = none := h.fresh _ (Nat.le_refl _)
+  refine ⟨hn, ?_, ?_, fun o ho => h'.live o _ ho hn⟩
+  · rw [h'.allocOnce]; simp
+  · rw [h'.freeOnce]; simp [hn]
+
+/-- No leak with exceptions: after any history with any armed operations, destroying all containers
+    leaves the heap empty and every allocation — including those of holders whose constructor threw — is
+    paired with exactly one free. -/
+theorem no_leak_x (n : Nat) (xs : List (Op × Bool)) :
+    let s := destroyAll n (runX n init xs)
+    (∀ i, s.heap i = none) ∧ (∀ o, isLive s o = false) ∧ liveCells s = [] ∧
+    (∀ i, s.log.count (.alloc i) = (if i < s.next then 1 else 0)) ∧
+    (∀ i, s.log.count (.free i) = s.log.count (.alloc i)) :=
+  no_leak_of_inv n _ (own_of_xops n xs)
+
+/-! ### `Data` as the library uses it: `MatrixXd m = any_cast<MatrixXd&&>(std::move(data))` -/
+
+theorem movedFrom_tag (v : Val) : (movedFrom v).tag = v.tag := by
+  unfold movedFrom; cases h : v.tag <;> simp [h]
+
+/-- Moving the value out through the rvalue-reference cast (sigma_point.cpp:146, and with move
+    assignment in KFCorrection / UKFCorrection / SUKFCorrection / GaussianLikelihood) returns the stored
+    value and leaves the container *non-empty*: it still owns its cell, still reports the same type, and
+    holds the moved-from object (for `MatrixXd` the 0×0 matrix) — a second move-out or any cast to that
+    type succeeds and yields that moved-from object; no other container changes, nothing is allocated or freed. -/
+theorem move_out_leaves_moved_from (s : St) (o : Obj) (v : Val) (hown : Own s) (hv : held s o = some v) :
+    let r := castValue s o v.tag .rvalMove
+    r.2 = some v ∧ held r.1 o = some (movedFrom v) ∧ hasValue r.1 o = true ∧
+    typeOf r.1 o = some v.tag ∧ (∀ x, x ≠ o → held r.1 x = held s x) ∧
+    (castValue r.1 o v.tag .rvalMove).2 = some (movedFrom v) ∧
+    (∀ i, r.1.heap i = none ↔ s.heap i = none) := by
+  intro r
+  have hty : typeOf s o = some v.tag := by rw [typeOf_eq_held_tag, hv]; rfl
+  have hheld : ∀ x, held r.1 x = if x = o then some (movedFrom v) else held s x := by
+    intro x
+    show held (castValue s o v.tag .rvalMove).1 x = _
+    rw [held_castValue hown]; simp [hty, hv]
+  have h2 : held r.1 o = some (movedFrom v) := by rw [hheld]; simp
+  have hty2 : typeOf r.1 o = some v.tag := by rw [typeOf_eq_held_tag, h2]; simp [movedFrom_tag]
+  refine ⟨?_, h2, ?_, hty2, ?_, ?_, ?_⟩
+  · show (castValue s o v.tag .rvalMove).2 = some v
+    rw [castValue_result]; simp [hty, hv]
+  · cases hc : content r.1 o with
+    | none => rw [held_def, hc] at h2; simp at h2
+    | some i => simp [hasValue, hc]
+  · intro x hx; rw [hheld]; simp [hx]
+  · rw [castValue_result]; simp [hty2, h2]
+  · intro i
+    show (castMoveOut s o v.tag).1.heap i = none ↔ _
+    unfold castMoveOut
+    split
+    · rfl
+    · next j hj =>
+      split
+      · rfl
+      · next w hw =>
+        show upd s.heap j (some (movedFrom w)) i = none ↔ _
+        rw [upd_apply]
+        by_cases hij : i = j
+        · subst hij; simp [hw]
+        · simp [hij]
+
+/-! non-vacuity: a reachable state in which an armed copy assignment throws and the target keeps its value;
+    an armed move does not throw; the storage of the failed holder is cell 2, allocated and freed once -/
+def tv : Val := ⟨.thr, 7⟩
+def sT : St := run 3 init [.ctorVal 0 .lref tv, .ctorVal 1 .rref p7]
+
+example : copied 3 sT (.asgnAny 1 0 .clref) = some tv ∧ (stepX 3 sT (.asgnAny 1 0 .clref, true)).2 = .threw ∧
+          absPool (stepX 3 sT (.asgnAny 1 0 .clref, true)).1 1 = some (some p7) ∧
+          absPool (stepX 3 sT (.asgnAny 1 0 .clref, false)).1 1 = some (some tv) := by decide
+example : (stepX 3 sT (.asgnAny 1 0 .rref, true)).2 = .done ∧
+          absPool (stepX 3 sT (.asgnAny 1 0 .rref, true)).1 1 = some (some tv) ∧
+          absPool (stepX 3 sT (.asgnAny 1 0 .rref, true)).1 0 = some none := by decide
+example : (stepX 3 sT (.ctorAny 2 0 .lref, true)).2 = .threw ∧ absPool (stepX 3 sT (.ctorAny 2 0 .lref, true)).1 2 = none ∧
+          (stepX 3 sT (.castVal 0 .thr .clval, true)).2 = .threw ∧ (stepX 3 sT (.castVal 0 .thr .rvalMove, true)).2 = .cast (some tv) ∧
+          (stepX 3 sT (.ctorVal 2 .clref p7, true)).2 = .src p7 := by decide
+example : (stepX 3 sT (.asgnVal 1 .crref tv, true)).1.log.count (.alloc 2) = 1 ∧
+          (stepX 3 sT (.asgnVal 1 .crref tv, true)).1.log.count (.free 2) = 1 ∧
+          liveCells (destroyAll 3 (stepX 3 sT (.asgnVal 1 .crref tv, true)).1) = [] := by decide
+/-- the matrix of a `Data` moved out as the library does it -/
+example : (castValue (run 3 init [.ctorVal 0 .rref ⟨.mat, 4⟩]) (.named 0) .mat .rvalMove).2 = some ⟨.mat, 4⟩ ∧
+          held (castValue (run 3 init [.ctorVal 0 .rref ⟨.mat, 4⟩]) (.named 0) .mat .rvalMove).1 (.named 0) = some ⟨.mat, -1⟩ := by decide
 
 end BFL.C20
